@@ -26,12 +26,12 @@ def join_inst(n1, n2, sep, mod, buf, twoout=False):
     return inst
 
 def undo(arg, mod, members):
+    if mod == "basename":      # documented: only the file name is left (no parent-dir prefix either; F18 was "../name")
+        c = [m for m in members if os.path.basename(m) == arg]
+        return c[0] if len(c) == 1 else arg
     a = arg[3:] if (arg.startswith("../") and not arg[3:].startswith("/")) else arg      # relative members are referenced from inside the temp dir
     if not mod: return a
     if mod == "%.txt": return a + ".txt"
-    if mod == "basename":
-        c = [m for m in members if os.path.basename(m) == a]
-        return c[0] if len(c) == 1 else a
     return a
 
 def normalize_join(rr, sep, mod):
@@ -154,6 +154,21 @@ def check_C18(tier):
                 elif det.ok: chk.extra["flowtrace_accepted"] = chk.extra.get("flowtrace_accepted", 0) + 1
         if n1 + max(n2, 0) >= 2: chk.nontrivial.add(json.dumps(c))
         chk.sample(dict(kind="join-run", case=label, members=info[0][0] if info else None), limit=5)
+    # the SAME joined in-port in several placeholders with different modifiers: each placeholder gets the whole sub-stream, with its own modifiers
+    for n in (1, 3):
+        inst = join_inst(n, -1, ",", "", 2)
+        inst["name"] = "JNREP"
+        inst["procs"][-1]["arg"] = "echo 'ARGS[{i:in|join:,}] MOD[{i:in|join:,|%.txt}] BASE[{i:in|join:,|basename}] AGAIN[{i:in|join:,}]' > {o:out}"
+        for rr in fc.real_runs(inst, [dict(env={}, bufsize=2, timeout=30), dict(env={"VERIF_JITTER": "5"}, bufsize=1, timeout=30)]):
+            chk.evaluations += 1
+            txt = rr.snapshot.get("o/cat.out_.txt", {}).get("text")
+            mem = ["../o/a1.out_a%d.txt" % k for k in range(1, n + 1)]
+            want = "ARGS[%s] MOD[%s] BASE[%s] AGAIN[%s]\n" % (",".join(mem), ",".join(m[:-4] for m in mem), ",".join(os.path.basename(m) for m in mem), ",".join(mem))
+            if rr.timeout or rr.deadlock or rr.rc != 0 or txt is None:
+                chk.violation("joined in-port used in four placeholders (%d members): the workflow did not complete: rc=%s %s" % (n, rr.rc, rr.stderr[-160:].replace("\n", " | ")), dict(instance=inst)); continue
+            if txt != want:
+                chk.violation("joined in-port used in several placeholders with different modifiers: the command received %r, expected %r" % (txt.strip(), want.strip()), dict(instance=inst))
+        chk.nontrivial.add("joined-port-repeated:%d" % n)
     # a process with TWO joined in-ports: each placeholder gets its own sub-stream, the audit record names the members of both
     for la, lb in ((3, 2), (2, 3), (1, 1)):
         inst = dict(name="JN2", max=3, bufsize=4,
